@@ -323,6 +323,41 @@ def r6(ctx, R):
             else:
                 R.bad(c, w, 'defaults first, user parameters last (a user value must win)', f'{kind} store of {key!r} overrides the user value')
 
+    dep_setups(ctx, R)
+
+
+def dep_setups(ctx, R):
+    repo = ctx.repo
+    base = repo.cls(CCORE, 'ConvergenceController')
+    # a controller that is added as a DEPENDENCY gets forwarded parameters; the manual entry of the description must be
+    # able to override them, i.e. its setup() must reach ConvergenceController.setup (the only place that merges the entry)
+    dep = {}
+    for m, ci_, f in repo.all_functions():
+        for c in ast.walk(f):
+            if isinstance(c, ast.Call) and isinstance(c.func, ast.Attribute) and c.func.attr == 'add_convergence_controller' and c.args:
+                a = c.args[0]
+                fam = False
+                if isinstance(a, ast.Call) and isinstance(a.func, ast.Attribute) and a.func.attr == 'get_implementation':
+                    a, fam = a.func.value, True
+                if isinstance(a, ast.Name):
+                    dep.setdefault(a.id, set()).add(f'{(ci_.name + ".") if ci_ else ""}{f.name}')
+                    if fam:
+                        dep.setdefault(a.id + '*', set()).add(f.name)
+    n_dep = 0
+    for ci in repo.subclasses(base, strict=True):
+        if not repo.is_library(ci):
+            continue
+        is_dep = ci.name in dep or any(isinstance(b, ClassInfo) and (b.name + '*') in dep for b in ci.mro)
+        if not is_dep:
+            continue
+        n_dep += 1
+        segs = setups.fold(repo, ci)
+        full = any(sg.kind == 'user' and sg.origin == 'ConvergenceController' for sg in segs)
+        by = sorted(dep.get(ci.name, set()))[:2] or ['get_implementation of a base class']
+        R.check(full, f'{ci.name}.setup :: added as a dependency (by {", ".join(by)}), so its setup() reaches ConvergenceController.setup, which lets the manual entry of the description override the forwarded parameters', f'{ci.module.relpath}:{ci.name}.setup', '{**defaults, **super().setup(controller, params, description)} down to the base class', [str(sg) for sg in segs if sg.kind == 'user'])
+    if n_dep < 8:
+        raise AnalysisError(f'C20.R6: only {n_dep} convergence controllers found that are added as dependencies')
+
 
 DESCRIPTION_DICTS = {'params', 'description', 'descr', 'controller_params', 'level_params', 'sweeper_params', 'problem_params', 'pars', 'step_params', 'descr_new'}
 
@@ -443,3 +478,156 @@ def qdelta_cache(ctx, R):
         test = ast.unparse(ifs[0].test) if len(ifs) == 1 else None
         want = f"not hasattr(self, '{attr}') or qd_type not in QDELTA_GENERATORS_ALIASES[type(self.{attr})]"
         R.check(test == want, f'Sweeper.{meth} :: the cached generator is reused only if the requested name is one of ITS aliases', w, want, test)
+
+
+def _registered(fn):
+    """{name: read-only?} from the _makeAttributeAndRegister calls of a constructor"""
+    reg = {}
+    for c in ast.walk(fn):
+        if isinstance(c, ast.Call) and isinstance(c.func, ast.Attribute) and c.func.attr == '_makeAttributeAndRegister':
+            ro = any(k.arg == 'readOnly' and isinstance(k.value, ast.Constant) and k.value.value is True for k in c.keywords)
+            for a in c.args:
+                if isinstance(a, ast.Constant) and isinstance(a.value, str):
+                    reg[a.value] = reg.get(a.value, False) or ro
+    return reg
+
+
+def _feeds_derived(fn, reg):
+    """{registered name: derived attributes of self that the constructor computes from it}"""
+    out = {}
+    for s in ast.walk(fn):
+        if not isinstance(s, (ast.Assign, ast.AugAssign)):
+            continue
+        for t in (s.targets if isinstance(s, ast.Assign) else [s.target]):
+            b = t
+            while isinstance(b, ast.Subscript):
+                b = b.value
+            if isinstance(b, ast.Attribute) and isinstance(b.value, ast.Name) and b.value.id == 'self' and b.attr not in reg:
+                for x in ast.walk(s.value):
+                    n = x.id if isinstance(x, ast.Name) else x.attr if isinstance(x, ast.Attribute) and isinstance(x.value, ast.Name) and x.value.id == 'self' else None
+                    if n in reg:
+                        out.setdefault(n, set()).add(b.attr)
+    # handed to the base-class constructor, which builds its operators from it
+    for c in ast.walk(fn):
+        if isinstance(c, ast.Call) and ast.unparse(c.func) == 'super().__init__':
+            for a in list(c.args) + [k.value for k in c.keywords]:
+                for x in ast.walk(a):
+                    if isinstance(x, ast.Name) and x.id in reg:
+                        out.setdefault(x.id, set()).add('<state built by the base-class constructor>')
+    return out
+
+
+@rule('C20', 'C20.R10', 'the read-only declarations stay: every (problem class, parameter) pair that is registered readOnly=True on the reference tree (sa/specs/readonly_params.json, each confirmed by the derived-state analysis or by reading) is still registered read-only - dropping the flag at one registration call would make assignments to it succeed silently while matrices / grids built from it stay as they were', floor=80)
+def r10(ctx, R):
+    import json
+    import os
+    repo = ctx.repo
+    with open(os.path.join(os.path.dirname(os.path.dirname(__file__)), 'specs', 'readonly_params.json')) as fh:
+        ref = json.load(fh)['read_only']
+    base = repo.cls('pySDC/core/problem.py', 'Problem')
+    seen = set()
+    for ci in repo.subclasses(base, strict=True):
+        if not repo.is_library(ci):
+            continue
+        fn = ci.methods.get('__init__')
+        if fn is None:
+            continue
+        reg = _registered(fn)
+        key = f'{ci.module.relpath}:{ci.name}'
+        if key not in ref:
+            # not on the reference tree: informational only (the statement speaks of the parameters that ARE read-only)
+            feeds = _feeds_derived(fn, reg)
+            loose = sorted(n for n in feeds if not reg[n])
+            if loose:
+                R.note(f'{ci.name}.__init__ :: parameters {loose} feed derived state and are not read-only', f'{key}.__init__', 'class is not part of the reference table; not decided')
+            continue
+        seen.add(key)
+        w = f'{key}.__init__'
+        R.fn(w)
+        feeds = _feeds_derived(fn, reg)
+        for name in ref[key]:
+            c = f'{ci.name}.__init__ :: parameter `{name}` is registered read-only' + (f' (feeds self.{", self.".join(sorted(feeds[name])[:2])})' if name in feeds else '')
+            if name not in reg:
+                raise AnalysisError(f'C20.R10: {key} does not register `{name}` any more (reference table out of date)')
+            R.check(reg[name], c, w, "_makeAttributeAndRegister(.., readOnly=True)", 'registered without readOnly')
+    missing = set(ref) - seen
+    if missing:
+        raise AnalysisError(f'C20.R10: classes of the reference table not found any more: {sorted(missing)[:4]}')
+
+
+def _pars_fields(repo, rel, cls='_Pars'):
+    ci = repo.cls(rel, cls)
+    fn = ci.methods['__init__']
+    out = set()
+    for s in ast.walk(fn):
+        tg = s.targets if isinstance(s, ast.Assign) else [s.target] if isinstance(s, ast.AnnAssign) else []
+        for t in tg:
+            if isinstance(t, ast.Attribute) and isinstance(t.value, ast.Name) and t.value.id == 'self':
+                out.add(t.attr)
+    return out
+
+
+@rule('C20', 'C20.R11', 'a validation looks where the user writes: every look-up of a level / step parameter in a description goes to the section whose parameter class declares the key (restol, dt, nsweeps, residual_type are LEVEL parameters, maxiter is a STEP parameter) - a check that reads the other section sees the default forever and never rejects anything', floor=8)
+def r11(ctx, R):
+    repo = ctx.repo
+    decl = {'level_params': _pars_fields(repo, 'pySDC/core/level.py'), 'step_params': _pars_fields(repo, 'pySDC/core/step.py')}
+    if 'restol' not in decl['level_params'] or 'maxiter' not in decl['step_params']:
+        raise AnalysisError('C20.R11: parameter classes of Level / Step not understood')
+    only = {k: sec for sec, ks in decl.items() for k in ks if sum(k in v for v in decl.values()) == 1}
+    n = 0
+    for m, ci, fn in repo.all_functions():
+        for x in ast.walk(fn):
+            sec = key = None
+            # D["sec"].get("key", ..) | D["sec"]["key"] | "key" in D["sec"](.keys())
+            if isinstance(x, ast.Call) and isinstance(x.func, ast.Attribute) and x.func.attr in ('get', 'pop', 'setdefault') and x.args and isinstance(x.args[0], ast.Constant) and isinstance(x.func.value, ast.Subscript) and isinstance(x.func.value.slice, ast.Constant):
+                sec, key = x.func.value.slice.value, x.args[0].value
+            elif isinstance(x, ast.Subscript) and isinstance(x.slice, ast.Constant) and isinstance(x.value, ast.Subscript) and isinstance(x.value.slice, ast.Constant):
+                sec, key = x.value.slice.value, x.slice.value
+            elif isinstance(x, ast.Compare) and len(x.ops) == 1 and isinstance(x.ops[0], (ast.In, ast.NotIn)) and isinstance(x.left, ast.Constant):
+                c = x.comparators[0]
+                if isinstance(c, ast.Call) and isinstance(c.func, ast.Attribute) and c.func.attr == 'keys':
+                    c = c.func.value
+                if isinstance(c, ast.Subscript) and isinstance(c.slice, ast.Constant):
+                    sec, key = c.slice.value, x.left.value
+            if sec not in decl or not isinstance(key, str) or key not in only:
+                continue
+            n += 1
+            w = qual(m, ci, fn)
+            R.fn(w)
+            R.check(only[key] == sec, f'{(ci.name + ".") if ci else ""}{fn.name} :: `{key}` is looked up in {sec}', w, f'{key} is declared by the parameter class of {only[key]}', f'line {x.lineno}: {ast.unparse(x)[:80]}')
+    if n < 8:
+        raise AnalysisError(f'C20.R11: only {n} look-ups of level / step parameters in descriptions found')
+
+
+# the only places where an object overwrites one of its OWN parameters after they were built from the user's dictionary
+PARAM_WRITES = {
+    ('Sweeper.__init__', 'do_coll_update'): 'forced to True when the right end point is not a node (the copy end point does not exist then; C05.R2)',
+    ('QDiagonalization.set_G_inv', 'G_inv'): 'per-step matrix of the ParaDiag sweeper, set by the controller for every block (C15.R2)',
+    ('EstimateExtrapolationErrorWithinQ.post_iteration_processing', 'Taylor_order'): 'derived from the number of collocation nodes of the level (may change with adaptive collocation), not a user option',
+    ('EstimateExtrapolationErrorWithinQ.post_iteration_processing', 'n'): 'as Taylor_order',
+}
+
+
+@rule('C20', 'C20.R12', 'an option the user set is never silently replaced: `self.params.<name> = ..` outside the parameter classes occurs only at the tabled sites, each a value the object must derive (no "will ignore X" branch that rewrites X)', floor=4)
+def r12(ctx, R):
+    repo = ctx.repo
+    seen = set()
+    for m, ci, fn in repo.all_functions():
+        if ci is None or ci.name in ('_Pars', 'Pars'):
+            continue
+        for s in ast.walk(fn):
+            tg = s.targets if isinstance(s, ast.Assign) else [s.target] if isinstance(s, (ast.AugAssign, ast.AnnAssign)) else []
+            for t in tg:
+                if isinstance(t, ast.Attribute) and isinstance(t.value, ast.Attribute) and t.value.attr == 'params' and isinstance(t.value.value, ast.Name) and t.value.value.id == 'self':
+                    key = (f'{ci.name}.{fn.name}', t.attr)
+                    w = qual(m, ci, fn)
+                    R.fn(w)
+                    c = f'{ci.name}.{fn.name} :: assigns self.params.{t.attr}'
+                    if key in PARAM_WRITES:
+                        seen.add(key)
+                        R.exc(c, w, PARAM_WRITES[key])
+                    else:
+                        R.bad(c, w, 'parameters are what the user (or the defaults) said; derived values live elsewhere (or a PARAM_WRITES entry with the reason)', f'line {s.lineno}: {ast.unparse(s)[:80]}')
+    missing = set(PARAM_WRITES) - seen
+    if missing:
+        raise AnalysisError(f'C20.R12: tabled parameter writes not found any more: {sorted(missing)}')
